@@ -279,7 +279,7 @@ func Replay(r *evid.Run, raw json.RawMessage) {
 }
 
 func Run(r *evid.Run) {
-	r.Rule("every string of each alphabet view up to its length bound (all distinct by construction) x 4 Allow* option sets x 7 entry points (IsValid, ReadValue+EOF, ReadToken loop, ReadValue loop, the first two again through a one-byte-per-Read reader, Unmarshal into any) compared with the reference recognizer; plus name grids around the 64-name / 1KiB namespace switch with a duplicate at every ordered pair, and the same wide object repeated as sibling element / next stream value / sibling member (stale namespace state). evaluations counts (string, option set); distinct_nontrivial counts distinct strings of >=2 bytes that are viable prefixes of JSON (the grammar's neighbourhood)")
+	r.Rule("every string of each alphabet view up to its length bound (all distinct by construction) x 4 Allow* option sets x 7 entry points (IsValid, ReadValue+EOF, ReadToken loop, ReadValue loop, the first two again through a one-byte-per-Read reader, Unmarshal into any) compared with the reference recognizer; plus texts nested exactly d deep for d around the limit of 10000 in ~100 shapes; plus name grids around the 64-name / 1KiB namespace switch with a duplicate at every ordered pair, and the same wide object repeated as sibling element / next stream value / sibling member (stale namespace state). evaluations counts (string, option set); distinct_nontrivial counts distinct strings of >=2 bytes that are viable prefixes of JSON (the grammar's neighbourhood)")
 	r.Assume("reference recognizer internal/refjson (cross-checked against encoding/json.Valid on every enumerated string)", "Go runtime")
 	lens := views.ForTier(r.Tier)
 	vs := views.Views(lens)
@@ -301,6 +301,7 @@ func Run(r *evid.Run) {
 	})
 	nameGrids(r)
 	neighbours(r, lens)
+	deep(r)
 }
 
 // nameGrids: objects with N names around the linear-search -> map switch, a duplicate injected at every ordered pair.
